@@ -1,2 +1,3 @@
-import Csvq.Drive.C01
-def main : IO Unit := Csvq.Drive.c01main
+import Csvq.Drive.Loop
+import Csvq.Drive.C20
+def main : IO Unit := Csvq.Drive.runDriver Csvq.Drive.c20
